@@ -455,3 +455,47 @@ def sample_oracle(vals, default=None):
         except (KeyError, TypeError, ValueError):
             return default
     return oracle
+
+
+# ------------------------------------------------------------------------------------------ arms decided on the samples that reach them
+def arms_agree(run, want, samples, what, tol=1e-6, ops=("<", ">", "<=", ">=")):
+    """``run(oracle)`` interprets a function; ``want`` is the closed form every arm must return.  The generic arm (no inequality met) is compared exactly by the
+    caller; this helper handles code that has inequality-guarded arms: every decision path is enumerated, and a path is compared with ``want`` *numerically, on
+    those sample valuations that satisfy all of the path's decisions* (an arm that replaces the formula by a series near a limit agrees to rounding there; an arm
+    that returns something else on a whole region does not).  Returns True | (False, detail, None) | (None, detail)."""
+    paths = enumerate_paths(run, ops=ops, max_paths=16)
+    unknown = None
+    reached = 0
+    for decisions, res in paths:
+        label = ", ".join("%s %s %s -> %s" % (str(c.lhs)[:24], c.op, str(c.rhs)[:10], a_) for c, a_ in decisions) or "no inequality met"
+        if isinstance(res, Exception):
+            from .symeval import Raised
+            if isinstance(res, Raised):
+                continue
+            unknown = (None, "%s: path [%s] not analysable (%s: %s)" % (what, label, type(res).__name__, str(res)[:60]))
+            continue
+        got = np.asarray(to_obj(res), dtype=object).ravel()
+        exp = np.asarray(to_obj(want), dtype=object).ravel()
+        if got.shape != exp.shape:
+            return (False, "%s: path [%s] returns shape %s" % (what, label, got.shape), None)
+        for vals in samples:
+            def val(at, vals=vals):
+                return _math.pi if at.name == "pi" else vals[at.name]
+            try:
+                if not all(bool(sample_oracle(vals)(c)) == bool(a_) for c, a_ in decisions):
+                    continue
+                g = [P.evalf(x, val) if isinstance(x, Rat) else float(x) for x in got]
+                e = [P.evalf(x, val) if isinstance(x, Rat) else float(x) for x in exp]
+            except Exception:
+                continue
+            reached += 1
+            num = _math.sqrt(sum((a_ - b_) ** 2 for a_, b_ in zip(g, e)))
+            den = _math.sqrt(sum(b_ ** 2 for b_ in e)) or 1.0
+            if not num <= tol * den + 1e-9:
+                return (False, "%s: on the arm [%s] the returned value differs from the closed form by %.3g (relative) at %s" % (
+                    what, label, num / den, {k: round(v, 4) for k, v in sorted(vals.items())}), None)
+    if unknown is not None:
+        return unknown
+    if reached == 0:
+        return (None, "%s: no sample valuation reaches any decision path" % what)
+    return True
